@@ -4,10 +4,10 @@ import random, json
 S = lambda s: {"S": s}
 N = lambda s: {"N": s}
 
-HASHES = ["a", "b", "c", "a.b", "ab"]
+HASHES = ["a", "b", "c", "a.b", "ab", ""]
 RANGES = ["1", "2", "10", "b.c", "c", "b"]
 NUMKEYS = ["1", "2", "10", "1.0", "007"]
-IDXVALS = ["x", "y", "z", "x.y", "xy"]
+IDXVALS = ["x", "y", "z", "x.y", "xy", ""]
 NUMS = ["1", "2", "10", "1.5", "0.1", "-3", "100", "1e2", "007", "2.50", "0", "010", "0017", "8"]
 TABLES = ["tbl", "tb2"]
 
